@@ -129,7 +129,7 @@ class CallableRender:
         self.__doc__ = None
         self.__module__ = __name__
 
-    def __call__(self, *a, **k):
+    def __call__(self, /, *a, **k):  # positional-only: a keyword argument named "self" must reach fn's **kwargs
         return self.fn(*a, **k)
 
 
